@@ -51,6 +51,9 @@ fn rel(a: u64) -> i64 {
     a as i64 - arena_base() as i64
 }
 fn os(name: &str, addr: u64, len: u64, extra: Value) {
+    if AP.with(|a| a.borrow().is_some()) {
+        return; // allocator-only runs: up to a million requests, summarised at the end
+    }
     observe();
     emit(json!({"ev":"POs","call":name,"off":rel(addr),"len":len,"in_arena":in_arena(addr, len.max(1)),"x":extra}));
 }
@@ -58,8 +61,55 @@ fn flush(name: &str, addr: u64, len: u64) {
     observe();
     emit(json!({"ev":"PFlush","how":name,"off":rel(addr),"len":len,"in_arena":in_arena(addr, len.max(1))}));
 }
+/// allocator-only runs: a simulated address space (nothing is written through the returned pointers).  A hinted request is
+/// granted exactly there when the page is in `free`; otherwise the kernel answers `elsewhere` (0 = failure).  A request
+/// without a hint is answered `null_answer` (0 = failure).
+#[derive(Default, Clone)]
+pub struct AllocPolicy {
+    pub free: std::collections::BTreeSet<u64>,
+    pub elsewhere: u64,
+    pub null_answer: u64,
+    pub handed: Vec<u64>,
+    pub calls: u64,
+}
+thread_local! { pub static AP: RefCell<Option<AllocPolicy>> = RefCell::new(None); }
+
+fn policy_grant(hint: u64) -> Option<u64> {
+    AP.with(|a| {
+        let mut a = a.borrow_mut();
+        let pol = a.as_mut()?;
+        pol.calls += 1;
+        let page = hint & !0xfff;
+        let r = if hint == 0 {
+            pol.null_answer
+        } else if pol.free.contains(&page) && !pol.handed.contains(&page) {
+            page
+        } else if pol.elsewhere != 0 && !pol.handed.contains(&pol.elsewhere) {
+            pol.elsewhere
+        } else {
+            0
+        };
+        if r != 0 {
+            pol.handed.push(r);
+        }
+        Some(r)
+    })
+}
+fn policy_release(addr: u64) -> Option<bool> {
+    AP.with(|a| {
+        let mut a = a.borrow_mut();
+        let pol = a.as_mut()?;
+        let n = pol.handed.len();
+        pol.handed.retain(|x| *x != addr);
+        Some(pol.handed.len() != n)
+    })
+}
+
 /// the allocation shims grant exactly the asked page when it is a free page of the arena, and nothing else
 fn grant(hint: u64, size: usize) -> u64 {
+    if let Some(r) = policy_grant(hint) {
+        return r;
+    }
     let page = hint & !0xfff;
     PS.with(|p| {
         let mut p = p.borrow_mut();
@@ -75,6 +125,9 @@ fn grant(hint: u64, size: usize) -> u64 {
     })
 }
 fn give_back(addr: u64) -> bool {
+    if let Some(r) = policy_release(addr) {
+        return r;
+    }
     PS.with(|p| {
         let mut p = p.borrow_mut();
         let pl = p.as_mut().unwrap();
@@ -235,6 +288,9 @@ macro_rules! arm64_variant {
                 let f = |a: u64| common::FuncPtrInternal::new(std::ptr::NonNull::new(a as usize as *mut ()).unwrap());
                 if kind == "bool" { patch_arm64::PatchArm64::replace_function_return_boolean(f(src), v) } else { patch_arm64::PatchArm64::replace_function_with_other_function(f(src), f(fake)) }
             }
+            pub unsafe fn alloc(src: u64) -> u64 {
+                common::allocate_jit_memory(&common::FuncPtrInternal::new(std::ptr::NonNull::new(src as usize as *mut ()).unwrap()), 64) as u64
+            }
         }
     };
 }
@@ -249,6 +305,9 @@ macro_rules! x64_variant {
                 use patch_trait::PatchTrait;
                 let f = |a: u64| common::FuncPtrInternal::new(std::ptr::NonNull::new(a as usize as *mut ()).unwrap());
                 if kind == "bool" { patch_amd64::PatchAmd64::replace_function_return_boolean(f(src), v) } else { patch_amd64::PatchAmd64::replace_function_with_other_function(f(src), f(fake)) }
+            }
+            pub unsafe fn alloc(src: u64) -> u64 {
+                common::allocate_jit_memory(&common::FuncPtrInternal::new(std::ptr::NonNull::new(src as usize as *mut ()).unwrap()), 64) as u64
             }
         }
     };
@@ -327,6 +386,44 @@ fn run_case(c: &Value) {
     unsafe { libc::munmap(base as *mut libc::c_void, len) };
 }
 
+/// allocator-only case: {"mode":"alloc","variant":..,"src":..,"free_deltas":[page deltas],"elsewhere":addr|0,"null_answer":addr|0}
+fn run_alloc(c: &Value) {
+    let variant = c.get("variant").and_then(|x| x.as_str()).unwrap_or("").to_string();
+    let src = c.get("src").and_then(|x| x.as_u64()).unwrap_or(0);
+    let mut pol = AllocPolicy::default();
+    for d in c.get("free_deltas").and_then(|x| x.as_array()).cloned().unwrap_or_default() {
+        let pg = (src & !0xfff) as i128 + d.as_i64().unwrap_or(0) as i128 * 4096;
+        if pg > 0 && pg < (1i128 << 47) {
+            pol.free.insert(pg as u64);
+        }
+    }
+    // the function's own code occupies its page(s)
+    pol.free.remove(&(src & !0xfff));
+    pol.free.remove(&((src + 15) & !0xfff));
+    pol.elsewhere = c.get("elsewhere").and_then(|x| x.as_u64()).unwrap_or(0);
+    pol.null_answer = c.get("null_answer").and_then(|x| x.as_u64()).unwrap_or(0);
+    AP.with(|a| *a.borrow_mut() = Some(pol));
+    emit(json!({"ev":"PAllocBegin","variant":variant,"src":crate::events::a8(src)}));
+    let r = std::panic::catch_unwind(|| unsafe {
+        match variant.as_str() {
+            "macos-a64" => plat_macos_a64::alloc(src),
+            "windows-a64" => plat_windows_a64::alloc(src),
+            "linux-a64" => plat_linux_a64::alloc(src),
+            "macos-x64" => plat_macos_x64::alloc(src),
+            "windows-x64" => plat_windows_x64::alloc(src),
+            "linux-x64" => plat_linux_x64::alloc(src),
+            x => panic!("harness: unknown variant {x}"),
+        }
+    });
+    let (held, calls) = AP.with(|a| a.borrow().as_ref().map(|p| (p.handed.clone(), p.calls)).unwrap_or_default());
+    AP.with(|a| *a.borrow_mut() = None);
+    match r {
+        Ok(p) => emit(json!({"ev":"PAllocEnd","outcome":"ok","addr":crate::events::a8(p),"held":held.len(),"only_result_held":held == vec![p],"calls":calls})),
+        Err(e) => emit(json!({"ev":"PAllocEnd","outcome":"panic","addr":crate::events::a8(0),"held":held.len(),"only_result_held":held.is_empty(),"calls":calls,
+            "msg":crate::panics::payload_str(&*e)})),
+    }
+}
+
 pub fn run(script: &str, out: &str) {
     crate::events::open(out);
     crate::panics::install_hook();
@@ -337,6 +434,10 @@ pub fn run(script: &str, out: &str) {
         }
         let sc: Value = serde_json::from_str(line).expect("scenario json");
         SCENARIO.store(sc.get("id").and_then(|x| x.as_u64()).unwrap_or(0), SeqCst);
-        run_case(&sc);
+        if sc.get("mode").and_then(|x| x.as_str()) == Some("alloc") {
+            run_alloc(&sc);
+        } else {
+            run_case(&sc);
+        }
     }
 }
